@@ -226,7 +226,7 @@ impl ElixirTime {
         let (microsecond_value, microsecond_precision) =
             if let Some(us) = map.get(&OwnedTerm::Atom(Atom::new("microsecond"))) {
                 if let Some((val, prec)) = us.as_2_tuple() {
-                    (val.as_integer().and_then(|v| u32::try_from(v).ok())?, prec.as_integer().and_then(|v| u8::try_from(v).ok())?)
+                    (crate::range::integer_field(val).and_then(|v| u32::try_from(v).ok())?, prec.as_integer().and_then(|v| u8::try_from(v).ok())?)
                 } else {
                     (0, 0)
                 }
@@ -425,7 +425,7 @@ impl ElixirNaiveDateTime {
         let (microsecond_value, microsecond_precision) =
             if let Some(us) = map.get(&OwnedTerm::Atom(Atom::new("microsecond"))) {
                 if let Some((val, prec)) = us.as_2_tuple() {
-                    (val.as_integer().and_then(|v| u32::try_from(v).ok())?, prec.as_integer().and_then(|v| u8::try_from(v).ok())?)
+                    (crate::range::integer_field(val).and_then(|v| u32::try_from(v).ok())?, prec.as_integer().and_then(|v| u8::try_from(v).ok())?)
                 } else {
                     (0, 0)
                 }
@@ -687,7 +687,7 @@ impl ElixirDateTime {
         let (microsecond_value, microsecond_precision) =
             if let Some(us) = map.get(&OwnedTerm::Atom(Atom::new("microsecond"))) {
                 if let Some((val, prec)) = us.as_2_tuple() {
-                    (val.as_integer().and_then(|v| u32::try_from(v).ok())?, prec.as_integer().and_then(|v| u8::try_from(v).ok())?)
+                    (crate::range::integer_field(val).and_then(|v| u32::try_from(v).ok())?, prec.as_integer().and_then(|v| u8::try_from(v).ok())?)
                 } else {
                     (0, 0)
                 }
